@@ -39,6 +39,7 @@ type Engine struct {
 	axAct     *Act
 	loadErrs  []string
 	effFree   []string
+	guarded   map[string]string // pkgpath.Type.field -> mutex field name
 }
 
 func newEngine(repo string) *Engine {
@@ -54,6 +55,7 @@ func newEngine(repo string) *Engine {
 		models:    map[string]modelFn{},
 		chaninvs:  map[string]*ChanInv{},
 		macros:    map[string]*Macro{},
+		guarded:   map[string]string{},
 	}
 }
 
@@ -153,6 +155,10 @@ func (e *Engine) loadSpecs(preludeDir string) error {
 			e.contracts[c.Key] = c
 		}
 		for _, ci := range sf.ChanInvs {
+			if strings.HasPrefix(ci.Key, "guarded:") {
+				e.guarded[ci.Key[8:]] = ci.Var
+				continue
+			}
 			e.chaninvs[ci.Key] = ci
 		}
 		e.axioms = append(e.axioms, sf.Axioms...)
@@ -359,6 +365,8 @@ func (e *Engine) resolveReads(f *SpecFn) {
 				srt = "(Array Int (Array " + parts[1] + " Bool))"
 			case parts[0] == "MV" && len(parts) == 3:
 				srt = "(Array Int (Array " + parts[1] + " " + parts[2] + "))"
+			case parts[0] == "E" && len(parts) == 2:
+				srt = "(Array Int " + parts[1] + ")"
 			case parts[0] == "G" && len(parts) == 2 && e.g.ghosts[parts[1]] != nil:
 				_, srt = ghostKey(e.g.ghosts[parts[1]])
 			default:
@@ -686,6 +694,13 @@ func (e *Engine) verifyFn(fn *ssa.Function, con *Contract) *VC {
 	}
 	a.analyzeCFG()
 	// requires
+	// no lock is held when a verified function is entered (sequential contract of one call)
+	{
+		H := vc.getHeap(st, "G:held", "(Array Int Int)")
+		U := vc.getHeap(st, "G:lockuses", "(Array Int Int)")
+		vc.assume("true", "(forall ((m Int)) (! (= (select "+H+" m) 0) :pattern ((select "+H+" m))))")
+		vc.assume("true", "(forall ((m Int)) (! (= (select "+U+" m) 0) :pattern ((select "+U+" m))))")
+	}
 	env := a.specEnv(st)
 	env.old = st
 	for _, c := range append(append([]*Clause(nil), con.Requires...), con.Represents...) {
@@ -701,6 +716,13 @@ func (e *Engine) verifyFn(fn *ssa.Function, con *Contract) *VC {
 		vc.unsupported("function %s has no body", key)
 	} else {
 		a.runBlocks(fn.Blocks[0], st, nil, nil)
+	}
+	// every mutex acquired by the function is released on every return path
+	for _, r := range a.rets {
+		H := vc.getHeap(r.st, "G:held", "(Array Int Int)")
+		for _, mu := range a.locks {
+			vc.obligeNoAssume(fmt.Sprintf("%s/lock-released#%d", short, len(vc.obls)), "lock", con.Props, posStr(e.fset, fn.Pos()), r.st.guard, eq(sel(H, mu), "0"), "mutex released on every return path")
+		}
 	}
 	// vacuity: some return (or panic) must be reachable under the assumptions
 	var gs []string
